@@ -207,7 +207,11 @@ def run(chk, tier, seed, prop=None):
     for b in bad:
         if isinstance(b, list) and b and b[0] == "BAD":
             ev = rows[b[1] - 1]
-            if ev["ev"] == "msg":
+            if ev["ev"] == "cap":
+                chk.violation({"engine": "status-cap", "fits": ev["cap"] >= ev["len"], "code": ev["code"]},
+                              f"message {ev['text']!r} on a {ev['cap']}-byte response buffer (full response {ev['len']} bytes): returned {ev['code']}, identical to the growable run: {ev['same']}, within capacity: {ev['within']}",
+                              {"line": b[1], "event": ev})
+            elif ev["ev"] == "msg":
                 d = closest(b[2]["allowed"], ev["ret"], ev["resps"], ev["post"])
                 sig = {"engine": "status-trace", "diff": ",".join(d)}
                 chk.violation(sig, f"message {ev['text']!r} (mav={ev['mav']}) returned {ev['ret']} resps={ev['resps']} post={json.dumps(ev['post'])}: not allowed by ScpiStatus",
@@ -224,3 +228,28 @@ def run(chk, tier, seed, prop=None):
     chk.assumptions += ["device wired as examples/minimal_scpi.rs (handle_error -> push_error, stb -> scpi_stb, cls -> scpi_cls, opc -> scpi_opc)",
                         "exhaustive part bounded to the register bits / values listed in coverage.engines; full-width values only in recorded traces",
                         "STB bits 3/7 are required only where condition&enable and event&enable agree (the property does not choose)"]
+
+
+def cap_trace(chk, tier, seed):
+    """C11 for the mandated commands: recorded status histories in which messages are also run, from the same state,
+    on fixed-capacity response buffers around the full response length; only the capacity rows are reported here."""
+    wd = workdir("C11-status")
+    tp = os.path.join(wd, "trace.ndjson")
+    harness(["status-trace", "--seed", seed, "--msgs", 1500 if tier == "quick" else 12000, "--mix", "c13", "--out", tp])
+    rows = [r for r in read_ndjson(tp) if r["ev"] != "panic" or chk.violation({"engine": "status-cap", "kind": "panic"}, f"panic: {r}", r)]
+    rows = [r for r in rows if r["ev"] != "panic"]
+    write_ndjson(tp, rows)
+    bad = []
+    res = tlc("TraceStatus", "SPECIFICATION TraceSpec\nPOSTCONDITION Complete\n", "C11-trace", workers=1, env={"TRACE": tp}, on_line=lambda v: bad.append(v), timeout=1800)
+    require_clean(res, "TraceStatus")
+    ncap = sum(1 for r in rows if r["ev"] == "cap")
+    chk.add_tlc("TraceStatus(capacity rows)", res, f"{ncap} executions of mandated-command messages on fixed-capacity buffers judged (fits => identical to the growable run, else -225)")
+    if ncap < 50:
+        raise ToolError("vacuity: too few capacity rows recorded")
+    for b in bad:
+        if isinstance(b, list) and b and b[0] == "BAD" and rows[b[1] - 1]["ev"] == "cap":
+            ev = rows[b[1] - 1]
+            chk.violation({"engine": "status-cap", "fits": ev["cap"] >= ev["len"], "code": ev["code"]},
+                          f"message {ev['text']!r} on a {ev['cap']}-byte response buffer (full response {ev['len']} bytes): returned {ev['code']}, identical to the growable run: {ev['same']}, within capacity: {ev['within']}",
+                          {"line": b[1], "event": ev})
+    chk.count(evaluations=ncap, traces=ncap)
